@@ -602,6 +602,15 @@ func (fr *Frame) instr(b *ssa.BasicBlock, in ssa.Instruction, st *State) *Exit {
 			fr.nilCheck(st, in, x.Addr)
 		}
 		fr.checkFrame(st, in, x.Addr)
+		if fa, ok := x.Addr.(*ssa.FieldAddr); ok {
+			stT := fa.X.Type().Underlying().(*types.Pointer).Elem()
+			tn := typeKey(stT)
+			if i := strings.LastIndex(tn, "."); i >= 0 {
+				tn = tn[i+1:]
+			}
+			key := tn + "." + stT.Underlying().(*types.Struct).Field(fa.Field).Name()
+			fe.storeReach[key] = append(fe.storeReach[key], st.alive)
+		}
 		fe.storeAddr(st, a, fr.val(x.Val).S)
 	case *ssa.Call:
 		fr.encodeCall(x, st)
